@@ -905,6 +905,7 @@ pub fn mutate_tokens(rng: &mut Rng, src: &str, n: usize) -> String {
 /// declarations, `this` forms, destructuring defaults, unary zoo, labelled continue, tagged member
 /// templates, comments between operands, inner directives, redeclarations, import.meta, HTML comments...
 pub const ZOO: &[&str] = &[
+    r####"class Z56 { #s = ''; #t = { u: '' }; static #c = ''; last() { return this; } m(a, b, list) { this.#s += a; list.last().#s += b; this.last().#t.u += a + b; Z56.#c += a; (a ? this : list).#s += `${b}`; this.#t['u'] += b; return this.#s; } }"####,
     r####"function z53(a, b) { 'use strict';; return a + b(); }"####,
     r####"function z54(a, b) { 'use client'; 'use strict';; ; return `${a}${b}`; }"####,
     r####"function z55(a, b) { 'use asm'; ; 'use strict'; return a.concat(b); }"####,
